@@ -3,6 +3,8 @@ CONSTANTS Caps = {5}
  MaxN = 6
  MaxTotal = 12
  DiscardRewinds = TRUE
+ MaxCreates = 2
+ CreateKeepsPointers = FALSE
 INVARIANTS NoBad
 VIEW View
 CHECK_DEADLOCK FALSE
